@@ -73,7 +73,7 @@ class Check(object):
                     "observations": {}}
         self.assumptions = []
         self._distinct = set()
-        self.max_report = 5
+        self.max_report = int(os.environ.get('VERIF_MAX_REPORT', '5'))
 
     # ---- coverage bookkeeping
     def add_tlc(self, label, res, exhaustive=True):
@@ -129,6 +129,13 @@ class Check(object):
         if self.violations:
             rc = 1
             os.makedirs(REPLAY_DIR, exist_ok=True)
+            # write out one replay bundle per distinct signature first, so that different ways of failing show
+            seen, ordered, rest = set(), [], []
+            for v in self.violations:
+                k = jdump(v[0])
+                (rest if k in seen else ordered).append(v)
+                seen.add(k)
+            self.violations = ordered + rest
             for sig, bundle in self.violations[: self.max_report]:
                 h = hashlib.sha1(jdump([sig, bundle]).encode()).hexdigest()[:12]
                 path = os.path.join(REPLAY_DIR, "%s-%s.json" % (self.prop, h))
@@ -167,6 +174,8 @@ def _init_worker(fn_module, fn_name, repo):
     global _worker_fn
     sys.path.insert(0, repo)
     import importlib
+    import logging
+    logging.disable(logging.WARNING)        # npTDMS warns about every truncated file; the checks read thousands
     _worker_fn = getattr(importlib.import_module(fn_module), fn_name)
 
 
